@@ -249,7 +249,9 @@ func (a *Args) String() string {
 		}
 	}
 	if a.Elided {
-		v = append(v, "...")
+		// Cap the slice so the append never writes into a.Processed's spare
+		// capacity: rendering must not modify the Args.
+		v = append(v[:len(v):len(v)], "...")
 	}
 	return strings.Join(v, ", ")
 }
